@@ -249,6 +249,7 @@ def finish(ctx: Ctx, t0: float, explanation: str, technique: str,
 def run_check(prop: str, tier: str, seed: int, rule_fn, explanation: str,
               technique: str, replay: str | None = None) -> int:
     t0 = time.time()
+    ctx = None
     try:
         prog = Program()
         prog.build_callgraph()
@@ -265,6 +266,13 @@ def run_check(prop: str, tier: str, seed: int, rule_fn, explanation: str,
                       "on the current tree")
         return finish(ctx, t0, explanation, technique, only)
     except AnalysisError as e:
+        # violations found before the analysis became undecidable are still
+        # reported (exit 1); otherwise fail closed with exit 2
+        if ctx is not None and ctx.findings:
+            print(f"ANALYSIS-INCOMPLETE property={prop}: {e}")
+            ctx.note(f"analysis incomplete: {e}")
+            rc = finish(ctx, t0, explanation, technique, None)
+            return rc if rc == 1 else 2
         print(f"ANALYSIS-ERROR property={prop}: {e}")
         return 2
     except Exception:  # noqa: BLE001 - tracebacks must not look like exit 1
